@@ -97,18 +97,48 @@ package ipa
 
 //@ func IPAProof.Write
 //@ props C10
-//@ prelude field curve bytesint io
+//@ prelude field curve bytesint io wrspec
 //@ let c0 = wcalls(w)
 //@ let n0 = wlen(w)
 //@ let total = len(ip.L) + len(ip.R) + 1
+//@ let LR = row(ip.L)
+//@ let Lo = off(ip.L)
+//@ let RR = row(ip.R)
+//@ let Ro = off(ip.R)
 //@ requires wlen(w) >= 0 && obj(w) != obj(ip) && obj(w) != obj(ip.L) && obj(w) != obj(ip.R)
 //@ ensures (c0 <= wr_fail(w) && wr_fail(w) < c0 + total) ==> result != nil
 //@ ensures (wr_fail(w) < c0 || wr_fail(w) >= c0 + total) ==> result == nil && wcalls(w) == c0 + total && wlen(w) == n0 + 32 * total
+// content: on success the output holds the encodings of L, then of R, then the little-endian scalar
+//@ ensures @C10 result == nil ==> penc(wrow(w), n0, LR, Lo, len(ip.L), len(ip.L)) && penc(wrow(w), n0 + 32 * len(ip.L), RR, Ro, len(ip.R), len(ip.R)) && frleAt(wrow(w), n0 + 32 * (len(ip.L) + len(ip.R)), ip.A_scalar)
 //@ modifies wcalls(w), wlen(w), wout(w, n0, n0 + 32 * total)
 //@ loop 0 invariant 0 - 1 <= rangeindex && rangeindex < len(ip.L) && wcalls(w) == c0 + rangeindex + 1 && wlen(w) == n0 + 32 * (rangeindex + 1) && !(c0 <= wr_fail(w) && wr_fail(w) < c0 + rangeindex + 1)
 //@ loop 0 invariant forall k int :: (0 <= k && k < n0) || k >= wlen(w) ==> wout(w, k) == old(wout(w, k))
+//@ loop 0 invariant row(ip.L) == LR && off(ip.L) == Lo && row(ip.R) == RR && off(ip.R) == Ro
+//@ ghost var NL Int 0
+//@ ghost var NR Int 0
+//@ loop 0 invariant wlen(w) == n0 + 32 * NL && NR == 0 && penc(wrow(w), n0, LR, Lo, len(ip.L), NL)
 //@ loop 1 invariant forall k int :: (0 <= k && k < n0) || k >= wlen(w) ==> wout(w, k) == old(wout(w, k))
 //@ loop 1 invariant 0 - 1 <= rangeindex && rangeindex < len(ip.R) && wcalls(w) == c0 + len(ip.L) + rangeindex + 1 && wlen(w) == n0 + 32 * (len(ip.L) + rangeindex + 1) && !(c0 <= wr_fail(w) && wr_fail(w) < c0 + len(ip.L) + rangeindex + 1)
+//@ loop 1 invariant row(ip.L) == LR && off(ip.L) == Lo && row(ip.R) == RR && off(ip.R) == Ro
+//@ loop 1 invariant penc(wrow(w), n0, LR, Lo, len(ip.L), len(ip.L))
+//@ loop 1 invariant wlen(w) == n0 + 32 * len(ip.L) + 32 * NR && penc(wrow(w), n0 + 32 * len(ip.L), RR, Ro, len(ip.R), NR)
+// (the index facts are stated as two inequalities on purpose: as an equation the solvers substitute NL away and the
+// successor form NL + 1 of the recursive predicate is no longer recognised)
+//@ at loopbody 0: assert@idx0 NL <= rangeindex + 1 && NL >= rangeindex + 1
+//@ at loopbody 1: assert@idx1 NR <= rangeindex + 1 && NR >= rangeindex + 1
+//@ at loopbody 0: ghost W0 := wrow(w)
+//@ at loopbody 0: ghost I0 := NL
+//@ at call Write 0: set NL := NL + 1
+//@ at call Write 1: set NR := NR + 1
+//@ at call Write 0: assert@frame0 err == nil ==> (forall j int :: n0 <= j && j < n0 + 32*I0 ==> wrow(w)[j] == W0[j])
+//@ at call Write 0: assert@prefix0 err == nil ==> penc(wrow(w), n0, LR, Lo, len(ip.L), I0)
+//@ at call Write 0: assert@chunk0 err == nil ==> fpbytesAt(wrow(w), n0 + 32*I0, 32, encx(LR[Lo + 3*I0], LR[Lo + 3*I0 + 1], LR[Lo + 3*I0 + 2]))
+//@ at loopbody 1: ghost W1 := wrow(w)
+//@ at loopbody 1: ghost I1 := NR
+//@ at call Write 1: assert@frame1 err == nil ==> (forall j int :: n0 <= j && j < n0 + 32*len(ip.L) + 32*I1 ==> wrow(w)[j] == W1[j])
+//@ at call Write 1: assert@prefixL err == nil ==> penc(wrow(w), n0, LR, Lo, len(ip.L), len(ip.L))
+//@ at call Write 1: assert@prefix1 err == nil ==> penc(wrow(w), n0 + 32 * len(ip.L), RR, Ro, len(ip.R), I1)
+//@ at call Write 1: assert@chunk1 err == nil ==> fpbytesAt(wrow(w), n0 + 32*len(ip.L) + 32*I1, 32, encx(RR[Ro + 3*I1], RR[Ro + 3*I1 + 1], RR[Ro + 3*I1 + 2]))
 
 // ---- config.go helpers and the b-vector (C04)
 
